@@ -452,7 +452,7 @@ REGIONS = {"json-five-file-save-not-atomic": ("no_silent_hybrid", _region_json_n
 def cases(tier, seed):
     cs = [case_json(2, 1, 1), case_json(0, 1, 1), case_sqlite()]
     if tier == "thorough":
-        cs += [case_json(3, 2, 2), case_json(2, 1, 2)]
+        cs += [case_json(3, 2, 2), case_json(2, 1, 2), case_json(1, 1, 1), case_json(0, 2, 2), case_json(3, 1, 1)]
     return cs
 
 
